@@ -2,7 +2,7 @@
 From Coq Require Import Permutation Sorted.
 From HTA.lib Require Import Base Sweep.
 From HTA.model Require Import C14_Model.
-From HTA.gen Require Import KernelRules_gen.
+From HTA.gen Require Import KernelRules_gen LaunchNames_gen.
 From HTA.proof Require Import KernelRulesTie C14_Proofs.
 Open Scope list_scope.
 Open Scope Z_scope.
@@ -90,3 +90,8 @@ Print Assumptions C14_kernel_types_follow_source.
 Theorem C14_memory_types_follow_source : forall n, mem_type n = mem_type_gen n.
 Proof. exact mem_type_is_generated. Qed.
 Print Assumptions C14_memory_types_follow_source.
+
+(* which host calls count as launches: the names (and the positive-link condition) read out of get_runtime_launch_events_query *)
+Theorem C14_launch_names_follow_source : launch_names = launch_names_gen /\ (forall e, is_launch e = str_in (name e) launch_names_gen && (0 <? icorr e)).
+Proof. split; [exact launch_names_are_generated | intro e; unfold is_launch; rewrite launch_names_are_generated; reflexivity]. Qed.
+Print Assumptions C14_launch_names_follow_source.
